@@ -272,7 +272,27 @@ impl Reader {
 		loop {
 			// When < HEADER_SIZE bytes remain, discard them (padding) and read next block
 			if self.buffer_remaining() < WAL_RECORD_HEADER_SIZE {
+				// Padding only exists at the end of a full block. Leftover bytes at the
+				// end of the last, partial block are the start of a record whose header
+				// was cut off: report them, so that they get repaired away - taken for
+				// end-of-log they would stay in the file and every record appended
+				// behind them later would be unreadable.
+				if self.buffer.len() < BLOCK_SIZE && self.buffer_remaining() > 0 {
+					return Err(Error::IO(IOError::new(
+						io::ErrorKind::Other,
+						"truncated record header at end of log",
+					)));
+				}
 				if !self.read_more()? {
+					// The log ending between the fragments of a record is a torn
+					// record, not a clean end (see above: it has to be repaired away
+					// before anything is appended behind it).
+					if fragment_index > 0 {
+						return Err(Error::IO(IOError::new(
+							io::ErrorKind::Other,
+							"log ends inside a fragmented record",
+						)));
+					}
 					return Err(Error::IO(IOError::new(
 						io::ErrorKind::UnexpectedEof,
 						"reached end of file",
